@@ -223,6 +223,7 @@ func c01Sticky(c *Ctx, r *RuleResult, m *parserModel, f *parserFlow) {
 			if ne, ok := f.isErrNilTest(cd.V); ok && ne != cd.True {
 				guarded = true
 				guard = cd.At
+				break // the nearest test
 			}
 		}
 		site := "store parser.err in " + p.FuncName(fn) + " at " + p.Pos(s.store.Pos())
